@@ -1004,6 +1004,20 @@ def _cb_outcome(ix, w, pos, cbname, d, wrapped):
     elif d["how"] == "abort" and d["cls"] in SUSPEND and not d.get("inner"):
         if oid is not None and ix.hist_status(d["inv"], oid) in TERMINAL and wrapped:
             out.append(V("C14", "callback-suspended-on-terminal", f"{pos}: result() suspended although history holds terminal status", pos=pos, seq=d["s1"]))
+        elif oid is not None and wrapped:
+            # the SDK was told the terminal status by a checkpoint response earlier in this invocation, and a
+            # later delivery proves that response had been merged before result() was called
+            rc = [e for e in ix.kinds["cb-result-call"] if e["pos"] == pos and e["i"] == d["inv"] and d["s0"] < e["s"] < d["s1"]]
+            if rc:
+                told = [e for e in ix.kinds["api-end"] if e["i"] == d["inv"] and e.get("ok") and e["s"] < rc[-1]["s"]
+                        and any(x[0] == oid and x[1] in TERMINAL for x in e.get("ops", []))]
+                if told:
+                    proof = [x for x in ix.kinds["call-ret"] + ix.kinds["call-raise"] if x["i"] == d["inv"] and x["t"] == d["t"]
+                             and told[0]["s"] < x["s"] < rc[-1]["s"]]
+                    if proof:
+                        out.append(V("C14", "callback-suspended-after-completion-was-reported", f"{pos}: result() suspended although the "
+                                     f"checkpoint response of API call {told[0]['call']} had already reported the callback terminal",
+                                     pos=pos, seq=d["s1"]))
     return out
 
 
